@@ -567,7 +567,7 @@ func C12(c *Ctx) {
 	}
 	r.Floor("C12-2", "uses of Config.Output outside pkg/config", nOut, 2)
 
-	r.Rule("C12-3", "no read of packages.Package.{Errors, IllTyped, TypeErrors} and no packages.PrintErrors anywhere in module code (type errors caused by stale output must not matter); positive control: other fields of packages.Package are seen being read")
+	r.Rule("C12-3", "no read of packages.Package.{Errors, IllTyped} and no packages.PrintErrors anywhere in module code, and TypeErrors is read only by a function whose every non-nil answer is given for an error positioned inside a type declaration of the setup file's own syntax tree (type errors caused by stale output must not matter: they sit at the stale file's declarations and at redeclared names, and the output path is hidden from the loader, C12-6); positive control: other fields of packages.Package are seen being read")
 	other := 0
 	for _, fn := range c.P.Funcs() {
 		for _, b := range fn.Blocks {
@@ -587,7 +587,12 @@ func C12(c *Ctx) {
 					continue
 				}
 				switch strings.TrimPrefix(fname, "packages.Package.") {
-				case "Errors", "IllTyped", "TypeErrors":
+				case "TypeErrors":
+					// one confined use: errors positioned inside a type declaration of the setup file (C14-18). What the file at the
+					// output path declares, or fails to parse, yields errors at its own declarations and at redeclared names – never
+					// inside the method list of an interface of the setup file – and that file is hidden from the loader anyway (C12-6)
+					r.Check("C12-3", FnKey(fn)+":"+fname, c.InstrPos(in), c.typeErrorsConfined(fn), "type errors are consulted without being confined to errors positioned inside a type declaration of the setup file: a broken file at the output path could change the run")
+				case "Errors", "IllTyped":
 					r.Check("C12-3", FnKey(fn)+":"+fname, c.InstrPos(in), false, "package load/type errors are consulted: a broken file at the output path could change the run")
 				default:
 					other++
@@ -623,11 +628,11 @@ func (c *Ctx) paramReachesLoadPattern(fn *ssa.Function, pname string) bool {
 	return false
 }
 
-// pathOnlyAddressed: the path value flows only into os.Stat, filepath.Abs (whose result is again only addressed),
-// filepath.Dir (whose result is only compared) and the key of a map update; it is never opened, read or printed.
+// pathOnlyAddressed: the path value flows only into os.Stat, filepath.Abs / EvalSymlinks / Dir / Base / Join (whose results are
+// again only addressed), comparisons and the key of a map update; it is never opened, read or printed.
 func pathOnlyAddressed(v ssa.Value, depth int) bool {
-	if depth > 4 || v.Referrers() == nil {
-		return depth <= 4
+	if depth > 9 || v.Referrers() == nil {
+		return depth <= 9
 	}
 	for _, rf := range *v.Referrers() {
 		switch x := rf.(type) {
@@ -642,25 +647,43 @@ func pathOnlyAddressed(v ssa.Value, depth int) bool {
 			}
 		case *ssa.BinOp:
 			// comparison of directories
+		case *ssa.Store:
+			// an element of filepath.Join(…), whose result is again only addressed
+			ia, isIA := x.Addr.(*ssa.IndexAddr)
+			if x.Val != v || !isIA {
+				return false
+			}
+			arr, isAlloc := ia.X.(*ssa.Alloc)
+			if !isAlloc || arr.Referrers() == nil {
+				return false
+			}
+			for _, ar := range *arr.Referrers() {
+				sl, isSlice := ar.(*ssa.Slice)
+				if !isSlice || sl.Referrers() == nil {
+					continue
+				}
+				for _, sr := range *sl.Referrers() {
+					jc, isCall := sr.(*ssa.Call)
+					if !isCall || core.CalleeName(&jc.Call) != "path/filepath.Join" || !pathOnlyAddressed(jc, depth+1) {
+						return false
+					}
+				}
+			}
 		case *ssa.Call:
 			switch core.CalleeName(&x.Call) {
 			case "os.Stat":
 				if x.Call.Args[0] != v {
 					return false
 				}
-			case "path/filepath.Abs":
+			case "path/filepath.Abs", "path/filepath.EvalSymlinks", "path/filepath.Base":
+				// EvalSymlinks reads link targets on the way to the path, never the file's content
 				if x.Call.Args[0] != v || !pathOnlyAddressed(x, depth+1) {
 					return false
 				}
 			case "path/filepath.Dir":
-				if x.Referrers() != nil {
-					for _, r2 := range *x.Referrers() {
-						if _, isCmp := r2.(*ssa.BinOp); !isCmp {
-							if _, isDbg := r2.(*ssa.DebugRef); !isDbg {
-								return false
-							}
-						}
-					}
+				// compared, resolved, or joined with a base name
+				if !pathOnlyAddressed(x, depth+1) {
+					return false
 				}
 			default:
 				return false
